@@ -154,17 +154,18 @@ Section Rev.
 
   (* after moving to the next (smaller) sibling, or to "no sibling left", exactly the words
      that are not below p.a have been processed *)
-  Lemma procR_succ ss cs a w : ov w ->
-    (procR (mkcfg ss cs (next_sym syms true a) true) w <-> ~ lex_lt w (rev cs ++ [a])).
+  (* should_yield only matters when no candidate is left *)
+  Lemma procR_succ ss cs a yy w : (next_sym syms true a = None -> yy = true) -> ov w ->
+    (procR (mkcfg ss cs (next_sym syms true a) yy) w <-> ~ lex_lt w (rev cs ++ [a])).
   Proof.
-    intros Hw. unfold procR. simpl. destruct (next_sym syms true a) as [b|] eqn:Hn.
+    intros Hyy Hw. unfold procR. simpl. destruct (next_sym syms true a) as [b|] eqn:Hn.
     - destruct (next_sym_rev_some _ Hds _ _ Hn) as [_ [Hba Hadj]].
       assert (Hadj' : forall y, In y syms -> y < a -> y <= b).
       { intros y Hy Hya. destruct (le_lt_dec y b) as [H|H]; [exact H|]. specialize (Hadj y Hy H). lia. }
       pose proof (adj_lt syms b a Hba Hadj' (rev cs) w Hw) as H. unfold below. tauto.
     - pose proof (next_sym_rev_none _ Hds _ Hn) as Hmin.
       pose proof (first_lt syms a Hmin (rev cs) w Hw) as H. split.
-      + intros [H1|[H1 _]] H2; [|discriminate]. apply H in H2.
+      + rewrite (Hyy eq_refl). intros [H1|[H1 _]] H2; [|discriminate]. apply H in H2.
         destruct H2 as [H2|H2]; [exact (lex_lt_asym _ _ H1 H2)|subst; exact (lex_lt_irrefl _ H1)].
       + intro H1. left. destruct (lex_lt_total w (rev cs)) as [H2|[H2|H2]]; [|  |exact H2];
           exfalso; apply H1; apply H; tauto.
@@ -258,7 +259,7 @@ Section Rev.
         * destruct Hinv as [Hs [Hc HA]].
           assert (Heq : forall w, ov w ->
                    (procR (mkcfg (run p :: below') (c_chars C) (next_sym syms true a) true) w <-> procR C w \/ is_prefix (p ++ [a]) w)).
-          { intros w Hw. rewrite (procR_succ _ (c_chars C) a w Hw). fold p.
+          { intros w Hw. rewrite (procR_succ _ (c_chars C) a true w (fun _ => eq_refl) Hw). fold p.
             unfold procR. rewrite Ec. fold p. unfold below. split.
             - intro H1. destruct (is_prefix_dec (p ++ [a]) w) as [H2|H2]; [right; exact H2|left; tauto].
             - intros [H1|H1]; [tauto|apply prefix_not_lt; exact H1]. }
@@ -275,15 +276,17 @@ Section Rev.
       pose proof (leave_correct out C Ec Hinv) as Hleave. cbv zeta in Hleave. fold p in Hleave.
       unfold p in *. clear p.
       revert H Hst Hleave. destruct (c_chars C) as [|a cs] eqn:Ecs; intros H Hst Hleave; [discriminate|].
-      inversion H; subst y C'; clear H.
+      cbv zeta in H. inversion H; subst y C'; clear H.
       simpl in Hst. rewrite Ess in Hst. destruct Hst as [_ Hst].
+      set (yy := negb (eqb_opt Nat.eqb (next_sym syms true a) (Some first))).
+      assert (Hyy : next_sym syms true a = None -> yy = true) by (intro E; unfold yy; rewrite E; reflexivity).
       split.
       + split; simpl; [exact Hst|].
         intros x Hx. destruct (next_sym_rev_some _ Hds _ _ Hx) as [Hb _]. exact Hb.
       + destruct Hleave as [Hs [Hc HA]].
         assert (Heq : forall w, ov w ->
-                 (procR (mkcfg below' cs (next_sym syms true a) true) w <-> procR C w \/ w = rev (a :: cs))).
-        { intros w Hw. rewrite (procR_succ _ cs a w Hw). unfold procR. rewrite Ec, Ecs. simpl rev.
+                 (procR (mkcfg below' cs (next_sym syms true a) yy) w <-> procR C w \/ w = rev (a :: cs))).
+        { intros w Hw. rewrite (procR_succ _ cs a yy w Hyy Hw). unfold procR. rewrite Ec, Ecs. simpl rev.
           destruct (lex_lt_total w (rev cs ++ [a])) as [H1|[H1|H1]].
           - split; [tauto|]. intros [[H2|[_ H2]]|H2] H3.
             + exact (lex_lt_asym _ _ H1 H2).
